@@ -2,6 +2,7 @@ package props
 
 import (
 	"fmt"
+	"go/token"
 	"go/types"
 	"sort"
 	"strings"
@@ -10,6 +11,7 @@ import (
 
 	"verifsa/internal/core"
 	"verifsa/internal/load"
+	"verifsa/internal/paths"
 )
 
 func init() {
@@ -232,6 +234,50 @@ func poolTypestate(c *core.Ctx, rule string) {
 			}
 			c.Decide(len(bad) == 0, rule, key, pos, "released once by its creator", strings.Join(uniq(bad), "; "))
 		}
+		// the same object put back twice in one function - directly, or through the pool's helper (a function that puts its
+		// parameter back) - is in the pool twice: two later Gets share it
+		{
+			objKey := func(v ssa.Value) string {
+				if mi, ok := v.(*ssa.MakeInterface); ok {
+					v = mi.X
+				}
+				if ld, ok := v.(*ssa.UnOp); ok && ld.Op == token.MUL {
+					if base, f, ok := paths.FieldOf(ld); ok {
+						return "field " + f.Name() + " of " + base.Name()
+					}
+				}
+				return v.Name()
+			}
+			seen := map[string]int{}
+			for _, p := range puts {
+				seen[objKey(p.Common().Args[len(p.Common().Args)-1])]++
+			}
+			for _, b := range fn.Blocks {
+				for _, ins := range b.Instrs {
+					ci, ok := ins.(ssa.CallInstruction)
+					if !ok {
+						continue
+					}
+					cal := ci.Common().StaticCallee()
+					if cal == nil || cal.Pkg == nil || !load.InModule(cal.Pkg.Pkg) || len(cal.Params) != 1 || len(ci.Common().Args) != 1 || !putsItsParam(cal) {
+						continue
+					}
+					seen[objKey(ci.Common().Args[0])]++
+				}
+			}
+			var twice []string
+			for k, n := range seen {
+				if n > 1 {
+					twice = append(twice, k)
+				}
+			}
+			sort.Strings(twice)
+			if len(seen) > 0 {
+				pos := c.Prog.Pos(fn.Pos())
+				c.Decide(len(twice) == 0, rule, funcKey(fn)+"#put-once", pos, "no object is put back twice",
+					"the same object ("+strings.Join(twice, ", ")+") is put back into its pool more than once: two later Gets receive the same buffer")
+			}
+		}
 		for i, p := range puts {
 			key := fmt.Sprintf("%s#put%d", funcKey(fn), i+1)
 			pos := c.Prog.Pos(p.Pos())
@@ -423,4 +469,31 @@ func calledOnlyFromRelease(c *core.Ctx, fn *ssa.Function) bool {
 		}
 	}
 	return true
+}
+
+// putsItsParam: an unexported function with one parameter that hands that parameter to a pool's Put.
+func putsItsParam(fn *ssa.Function) bool {
+	if fn.Object() == nil || fn.Object().Exported() || len(fn.Params) != 1 {
+		return false
+	}
+	for _, b := range fn.Blocks {
+		for _, ins := range b.Instrs {
+			ci, ok := ins.(ssa.CallInstruction)
+			if !ok {
+				continue
+			}
+			cal := ci.Common().StaticCallee()
+			if cal == nil || cal.Name() != "Put" || len(ci.Common().Args) == 0 {
+				continue
+			}
+			arg := ci.Common().Args[len(ci.Common().Args)-1]
+			if mi, isMI := arg.(*ssa.MakeInterface); isMI {
+				arg = mi.X
+			}
+			if arg == ssa.Value(fn.Params[0]) {
+				return true
+			}
+		}
+	}
+	return false
 }
